@@ -14,7 +14,9 @@ import (
 // exists whose hit edge cannot reach the target, and the same map is updated
 // with the same key on the miss path; the map must be allocated outside the
 // loop that performs the test (otherwise it forgets what it has seen).
-func (c *Ctx) MapDedup(fn *ssa.Function, keyGlob string, tgt Target, what string) bool {
+// scope (optional): canonical loop conditions of the loops the map must span; an
+// allocation inside such a loop (a set that forgets between its iterations) fails.
+func (c *Ctx) MapDedup(fn *ssa.Function, keyGlob string, tgt Target, what string, scope ...string) bool {
 	if fn == nil {
 		return false
 	}
@@ -128,6 +130,36 @@ func (c *Ctx) MapDedup(fn *ssa.Function, keyGlob string, tgt Target, what string
 				okAll = false
 				continue
 			}
+		}
+		if mm, ok := h.m.(*ssa.MakeMap); ok && len(scope) > 0 {
+			bad := ""
+			for _, sc := range scope {
+				found := false
+				for _, hb := range fn.Blocks {
+					ifi, ok := hb.Instrs[len(hb.Instrs)-1].(*ssa.If)
+					if !ok {
+						continue
+					}
+					if s, _ := IfCanon(ifi); MatchCond(sc, s) {
+						found = true
+						if hb != mm.Block() && hb.Dominates(mm.Block()) {
+							bad = "the set is allocated inside the loop `" + sc + "`: it forgets what earlier iterations recorded"
+						}
+					}
+				}
+				if !found {
+					bad = "the loop `" + sc + "` the set must span was not found"
+				}
+			}
+			if bad != "" {
+				c.Fail("K12", fnName, ob, site, bad)
+				okAll = false
+				continue
+			}
+		} else if len(scope) > 0 {
+			c.Fail("K12", fnName, ob, site, "the tested set is not a map allocated in this function; its scope cannot be established")
+			okAll = false
+			continue
 		}
 		c.OK("K12", fnName, ob, site, fmt.Sprintf("key `%s`: hit edge rejects, miss path records the key", short(h.key, 120)))
 	}
@@ -405,5 +437,114 @@ func (c *Ctx) EdgeReturns(fn *ssa.Function, cond Cond, idx int, want, why string
 		} else {
 			c.OK("K2", fnName, what, site, why)
 		}
+	}
+}
+
+// EveryClass (K13): inside the loop(s) whose canonical condition is loopCond and
+// that branch on the given atoms, every assignment of the atoms meets a call of
+// `must` before the iteration completes (an iteration that ends in a return is a
+// rejection and is fine). Unlike a guard-set comparison this is path based, so a
+// class skipped through a disjunction or an early `continue` is seen.
+func (c *Ctx) EveryClass(fn *ssa.Function, atoms, names []string, must, loopCond, why string) {
+	if fn == nil {
+		return
+	}
+	fnName := load.QualName(fn)
+	type br struct {
+		b  *ssa.BasicBlock
+		ts int
+	}
+	atomBr := make([][]br, len(atoms))
+	for _, b := range fn.Blocks {
+		ifi, ok := b.Instrs[len(b.Instrs)-1].(*ssa.If)
+		if !ok {
+			continue
+		}
+		s, ts := IfCanon(ifi)
+		for i, a := range atoms {
+			if MatchCond(a, s) {
+				atomBr[i] = append(atomBr[i], br{b, ts})
+			}
+		}
+	}
+	calls := func(b *ssa.BasicBlock) bool {
+		for _, ins := range b.Instrs {
+			if ci, ok := ins.(ssa.CallInstruction); ok && Callee(ci.Common()).Match(must) {
+				return true
+			}
+		}
+		return false
+	}
+	infeasible := InfeasibleEdges(fn)
+	loops := 0
+	for _, he := range CondEdges(fn, Cond{Canon: loopCond, Sense: true}) {
+		header, body := he.From, he.To()
+		// the blocks of one iteration
+		iter := ReachFrom([]*ssa.BasicBlock{body}, EdgeSet{Edge{header, 0}: true, Edge{header, 1}: true})
+		hasMust := false
+		for b := range iter {
+			if calls(b) {
+				hasMust = true
+			}
+		}
+		if !hasMust {
+			continue
+		}
+		loops++
+		n := 0
+		for i := range atoms {
+			for _, x := range atomBr[i] {
+				if iter[x.b] {
+					n++
+				}
+			}
+		}
+		for mask := 0; mask < 1<<len(atoms); mask++ {
+			var label []string
+			cut := union(EdgeSet{}, infeasible)
+			for i := range atoms {
+				val := mask&(1<<i) != 0
+				label = append(label, fmt.Sprintf("%s=%v", names[i], val))
+				for _, x := range atomBr[i] {
+					if val {
+						cut[Edge{x.b, 1 - x.ts}] = true
+					} else {
+						cut[Edge{x.b, x.ts}] = true
+					}
+				}
+			}
+			seen := map[*ssa.BasicBlock]bool{}
+			completed := false
+			var dfs func(b *ssa.BasicBlock)
+			dfs = func(b *ssa.BasicBlock) {
+				if seen[b] || completed {
+					return
+				}
+				seen[b] = true
+				if b == header {
+					completed = true
+					return
+				}
+				if calls(b) {
+					return
+				}
+				for i, s := range b.Succs {
+					if !cut[Edge{b, i}] {
+						dfs(s)
+					}
+				}
+			}
+			dfs(body)
+			c.Sites++
+			what := "class {" + strings.Join(label, ",") + "} meets " + must + " in every iteration of `" + short(loopCond, 80) + "`"
+			if completed {
+				c.Fail("K13", fnName, what, c.At(header.Instrs[len(header.Instrs)-1]), "an iteration can complete without it ("+why+")")
+			} else {
+				c.OK("K13", fnName, what, c.At(header.Instrs[len(header.Instrs)-1]), fmt.Sprintf("%s (%d class branch(es) inside the loop)", why, n))
+			}
+		}
+	}
+	if loops == 0 {
+		c.Fail("anchor", fnName, "K13: a loop `"+short(loopCond, 80)+"` calling "+must+" is present", "-", "not found")
 	}
 }
